@@ -60,7 +60,7 @@ TIERS = {
         ('mapvals-d1', _c('mapvals', 1)),           # maps of <= 3 entries, nested values, all map functions
         ('arrays-d1', _c('arrays', 1)),             # arrays of <= 3 members, all array functions, positions -1..4
         ('arrays2-d2', _c('arrays2', 2, lite=True)),
-        ('deq-d1', _c('deq', 1)),                   # deep-equal on all pairs of a universe of 42 values
+        ('deq-d1', _c('deq', 1)),                   # deep-equal on all pairs of a universe of 44 values
         ('mixed-d2', _c('mixed', 2, lite=True)),    # maps and arrays together (values extracted from one another)
     ],
     # histories of length <= 3, larger alphabets
@@ -763,6 +763,7 @@ def features(action, args, src_store, expected, binding, check, outcome) -> dict
                                            for x in (a, b)))
         atoms = atoms_in(a, []) + atoms_in(b, [])
         f['bool_num_atoms'] = key_flags(atoms)['bool_num_keys']
+        f['nan_atoms'] = any(x['x'] == 'NaN' for x in atoms)
     return f
 
 
